@@ -1012,6 +1012,9 @@ def specs_for(tier):
         add("lzma", 512)
         add("bzip2", 512)
         add("copy", 256)
+        # members whose PACKED stream is large too (stored / incompressible): input reads and the write loop must stay per block
+        add("copy", 1024, ops=(D, F))
+        add("zstd", 768, pattern="random")
         add("ppmd", 128)
         add("x86+deflate", 512)
         add("deflate+aes", 512)
